@@ -430,7 +430,13 @@ func genConv13(g *Gen, w *bufio.Writer) {
 					l = forms[k/4%5] // homogeneous lists of each form
 				}
 				b = append(b, byte(l))
-				b = append(b, g.Bytes(l)...)
+				c := g.Bytes(l)
+				if k%3 == 1 { // a pool of two octet values: entries repeat or differ in one component only
+					for x := range c {
+						c[x] = []byte{1, 2}[g.Intn(2)]
+					}
+				}
+				b = append(b, c...)
 			}
 			fmt.Fprintf(w, "conv reqnssai %d %s\n", len(b), hexs(b))
 			if k%5 == 0 && len(b) > 0 { // malformed: truncate / corrupt a length octet
